@@ -6,6 +6,13 @@
  * Case lines:
  *   loop <select|poll|epoll> <loop-thread 0|1> <hints_max_fd>
  *   thr <script>            one line per thread T0, T1, ... ("-" = empty script)
+ *   cb <handle|bare> <flags|-> [nctx]   optional; default "handle warcmt"
+ *       which optional callbacks are installed (absent letter = NULL):
+ *       handle: w cb_wake, a cb_add_ctx, r cb_release, c cb_close, m cb_msg, t cb_timer of the
+ *               socket_evloop_handle attached to the loop
+ *       bare:   NO handle; w cb_wake, r cb_read, c cb_close, l cb_clear, x cb_exit, t cb_timer of
+ *               the muggle_event_loop_t itself; <nctx> socketpair-backed contexts are registered
+ *               by T0 right after creation; script letter h is executed as a plain wake-up
  *   budget <steps>          optional (default 20000)
  *   sched <spec>            see vsched.h
  * Thread T0 CREATES the loop (muggle_evloop_new records T0 in evloop->tid), attaches a
@@ -36,6 +43,11 @@ static char scripts[VS_MAXT][32];
 static muggle_event_loop_t *evloop;
 static muggle_socket_evloop_handle_t handle;
 static int g_nctx, g_live, g_returned;
+static int bare, bare_nctx;
+static char cbflags[16];
+static muggle_event_context_t *bare_ctx[8];
+static int bare_peer[8];
+#define HAS(c) (strchr(cbflags, (c)) != NULL)
 static int peers[MAXCTX];
 static muggle_socket_context_t *ctxs[MAXCTX];
 static int freed[MAXCTX];
@@ -83,6 +95,28 @@ static muggle_socket_context_t *cb_alloc(void *pool)
 	return (muggle_socket_context_t *)malloc(sizeof(muggle_socket_context_t));
 }
 
+/* callbacks of a bare loop */
+static int bare_id(muggle_event_context_t *ctx) { return (int)(intptr_t)muggle_ev_ctx_data(ctx); }
+static void bare_wake(muggle_event_loop_t *ev) { (void)ev; vs_note("wake"); }
+static void bare_read(muggle_event_loop_t *ev, muggle_event_context_t *ctx)
+{
+	(void)ev;
+	char buf[64];
+	vs_note("read %d", bare_id(ctx));
+	while (muggle_ev_ctx_read(ctx, buf, sizeof(buf)) > 0);
+}
+static void bare_close(muggle_event_loop_t *ev, muggle_event_context_t *ctx) { (void)ev; vs_note("close %d", bare_id(ctx)); }
+static void bare_clear(muggle_event_loop_t *ev, muggle_event_context_t *ctx) { (void)ev; vs_note("clear %d", bare_id(ctx)); }
+static void bare_exit(muggle_event_loop_t *ev) { (void)ev; vs_note("exitcb"); }
+static void any_timer(muggle_event_loop_t *ev) { (void)ev; vs_note("timer"); }
+static void cb_msg(muggle_event_loop_t *ev, muggle_socket_context_t *ctx)
+{
+	(void)ev;
+	char buf[64];
+	vs_note("msg %d", ctx_id(ctx));
+	while (muggle_socket_ctx_read(ctx, buf, sizeof(buf)) > 0);
+}
+
 static void thread_body(void *arg);
 
 static void create_all(void)
@@ -94,15 +128,34 @@ static void create_all(void)
 	a.use_mem_pool = 0;
 	evloop = muggle_evloop_new(&a);
 	if (!evloop) { vs_note("evloop_new failed"); return; }
-	muggle_socket_evloop_handle_init(&handle);
-	muggle_socket_evloop_handle_set_cb_add_ctx(&handle, cb_add_ctx);
-	muggle_socket_evloop_handle_set_cb_release(&handle, cb_release);
-	muggle_socket_evloop_handle_set_cb_close(&handle, cb_close);
-	muggle_socket_evloop_handle_set_cb_wake(&handle, cb_wake);
-	muggle_socket_evloop_handle_set_alloc_free(&handle, NULL, cb_alloc, cb_free);
-	muggle_socket_evloop_handle_attach(&handle, evloop);
+	if (bare) {
+		if (HAS('w')) muggle_evloop_set_cb_wake(evloop, bare_wake);
+		if (HAS('r')) muggle_evloop_set_cb_read(evloop, bare_read);
+		if (HAS('c')) muggle_evloop_set_cb_close(evloop, bare_close);
+		if (HAS('l')) muggle_evloop_set_cb_clear(evloop, bare_clear);
+		if (HAS('x')) muggle_evloop_set_cb_exit(evloop, bare_exit);
+		if (HAS('t')) muggle_evloop_set_cb_timer(evloop, any_timer);
+		for (int i = 0; i < bare_nctx; i++) {
+			int sv[2] = { -1, -1 };
+			if (socketpair(AF_UNIX, SOCK_STREAM, 0, sv) != 0) { vs_note("socketpair failed"); break; }
+			bare_ctx[i] = (muggle_event_context_t *)malloc(sizeof(muggle_event_context_t));
+			muggle_ev_ctx_init(bare_ctx[i], sv[0], (void *)(intptr_t)i);
+			bare_peer[i] = sv[1];
+			if (muggle_evloop_add_ctx(evloop, bare_ctx[i]) != 0) vs_note("add_ctx failed %d", i);
+		}
+	} else {
+		muggle_socket_evloop_handle_init(&handle);
+		if (HAS('a')) muggle_socket_evloop_handle_set_cb_add_ctx(&handle, cb_add_ctx);
+		if (HAS('r')) muggle_socket_evloop_handle_set_cb_release(&handle, cb_release);
+		if (HAS('c')) muggle_socket_evloop_handle_set_cb_close(&handle, cb_close);
+		if (HAS('w')) muggle_socket_evloop_handle_set_cb_wake(&handle, cb_wake);
+		if (HAS('m')) muggle_socket_evloop_handle_set_cb_msg(&handle, cb_msg);
+		if (HAS('t')) muggle_socket_evloop_handle_set_cb_timer(&handle, any_timer);
+		muggle_socket_evloop_handle_set_alloc_free(&handle, NULL, cb_alloc, cb_free);
+		muggle_socket_evloop_handle_attach(&handle, evloop);
+		vs_name(&handle.mtx->mtx, "hmtx");
+	}
 	vs_io_set_signal_fd(muggle_ev_signal_rfd(evloop->ev_signal));
-	vs_name(&handle.mtx->mtx, "hmtx");
 	for (int t = 1; t < nthr; t++) vs_spawn(thread_body, (void *)(intptr_t)t);
 	vs_note("created");
 }
@@ -132,7 +185,10 @@ static void thread_body(void *arg)
 		vs_yield_point("op");
 		switch (s[k]) {
 		case 'w': vs_note("op w %d", k); muggle_evloop_wakeup(evloop); break;
-		case 'h': handover(); break;
+		case 'h':
+			if (bare) { vs_note("op w %d", k); muggle_evloop_wakeup(evloop); }
+			else handover();
+			break;
 		case 'x': vs_note("op x %d", k); muggle_evloop_exit(evloop); break;
 		default: break;
 		}
@@ -150,6 +206,7 @@ static void case_begin(void)
 {
 	strcpy(sched, "rand 1 50 0 0");
 	be_name[0] = 0; nthr = 0; loopthr = 0; hints = 8; budget = 20000;
+	bare = 0; bare_nctx = 0; strcpy(cbflags, "warcmt");
 	memset(scripts, 0, sizeof(scripts));
 }
 
@@ -170,6 +227,14 @@ static void case_line(char *line)
 			snprintf(scripts[nthr], sizeof(scripts[nthr]), "%s", sc);
 			nthr++;
 		}
+	} else if (strcmp(op, "cb") == 0) {
+		char mode[16] = "", fl[16] = "";
+		int n = 0;
+		sscanf(line, "%*s %15s %15s %d", mode, fl, &n);
+		bare = strcmp(mode, "bare") == 0;
+		if (strcmp(fl, "-") == 0) fl[0] = 0;
+		snprintf(cbflags, sizeof(cbflags), "%s", fl);
+		bare_nctx = bare ? (n < 0 ? 0 : n > 8 ? 8 : n) : 0;
 	} else if (strcmp(op, "budget") == 0) {
 		sscanf(line, "%*s %ld", &budget);
 	}
@@ -186,10 +251,11 @@ static void case_end(void)
 	evloop = NULL; g_nctx = g_live = g_returned = 0;
 	memset(freed, 0, sizeof(freed));
 	for (int i = 0; i < MAXCTX; i++) { peers[i] = -1; ctxs[i] = NULL; }
+	for (int i = 0; i < 8; i++) { bare_ctx[i] = NULL; bare_peer[i] = -1; }
 	vs_spawn(thread_body, (void *)(intptr_t)0);
 	int st = vs_run();
 	int late = 0;
-	if (st == 0 && evloop) {
+	if (st == 0 && evloop && !bare) {
 		/* owner clean-up after run() has returned and every thread has finished: contexts
 		 * handed over too late to be seen by the exit callback are still queued */
 		while (muggle_queue_size(handle.ctx_queue) > 0) {
@@ -209,8 +275,12 @@ static void case_end(void)
 		_exit(77);
 	}
 	for (int i = 0; i < MAXCTX; i++) if (peers[i] >= 0) close(peers[i]);
+	for (int i = 0; i < 8; i++) {
+		if (bare_ctx[i]) { muggle_ev_ctx_close(bare_ctx[i]); free(bare_ctx[i]); bare_ctx[i] = NULL; }
+		if (bare_peer[i] >= 0) { close(bare_peer[i]); bare_peer[i] = -1; }
+	}
 	if (evloop) {
-		muggle_socket_evloop_handle_destroy(&handle);
+		if (!bare) muggle_socket_evloop_handle_destroy(&handle);
 		muggle_evloop_delete(evloop);
 		evloop = NULL;
 	}
